@@ -89,6 +89,8 @@ class Source:
             s += 1
         while t[e - 1] in " \t\n":
             e -= 1
+        if strip_closure_head is None:
+            return Region(self, s, e)
         if strip_closure_head and t[s] == "|":
             s = t.find("|", s + 1) + 1
             while t[s] in " \t\n":
@@ -106,6 +108,36 @@ class Source:
                 break
             e = match_brace(self.text, e + m.end() - 1)
         return Region(self, ls, e)
+
+    def block_until_stmt(self, block_region, stmt_prefix):
+        """Statements of a `{ .. }` block from its first statement up to (and including) the statement starting with
+        `stmt_prefix` (unique in the block); the statement ends at the next `;` at nesting depth 0."""
+        t = self.text
+        a = block_region.start
+        if t[a] != "{":
+            raise LostAnchor("expected a block in %s" % self.rel)
+        i = self._unique(stmt_prefix, a, block_region.end)
+        depth, j = 0, i
+        while j < block_region.end:
+            c = t[j]
+            if c in "([{":
+                depth += 1
+            elif c in ")]}":
+                depth -= 1
+            elif c == ";" and depth == 0:
+                break
+            j += 1
+        nl = t.find("\n", a, i)
+        return Region(self, (nl + 1) if nl >= 0 else a + 1, j + 1)
+
+    def tail_after(self, fn_region, after):
+        """Everything after the statement text `after` up to (excluding) the closing brace of the function body."""
+        a = self._unique(after, fn_region.start, fn_region.end) + len(after)
+        nl = self.text.find("\n", a, fn_region.end)
+        e = fn_region.end - 1
+        while self.text[e - 1] in " \t\n":
+            e -= 1
+        return Region(self, nl + 1, e)
 
     def between(self, fn_region, after, last):
         """Statement slice: everything after the statement text `after` up to the end of the statement `last`."""
